@@ -36,6 +36,11 @@ pub fn parse_binary_float(static_: bool, embedded: bool, input: TokenStream) -> 
     // allow one underscore prefix
     let value_str = value_str.strip_prefix('_').unwrap_or(value_str);
 
+    // the sign has been taken above: a second one is not part of the literal
+    if value_str.starts_with(|c| c == '+' || c == '-') {
+        panic_fbig_syntax()
+    }
+
     // generate expressions
     type FBin = FBig; // use the default generic arguments
     let f = unwrap_with_error_msg(FBin::from_str(value_str));
